@@ -160,8 +160,48 @@ def bool_edges(ctx, b, pred):
     pred receives the comparison as it holds on that edge (negations folded: '!Lt' etc.)"""
     an = ctx.an(b)
     out = []
+    def try_pred(op, A, B):
+        # a rule written for `x != 0` also accepts `0 != x` (and the mirrored ordered comparisons)
+        if pred(op, A, B):
+            return True
+        if B is not None:
+            base = op.lstrip('!')
+            if base in CMP_SWAP and pred(('!' if op.startswith('!') else '') + CMP_SWAP[base], B, A):
+                return True
+            if base in ('Eq', 'Ne'):
+                dual = CMP_NEG[base] if op.startswith('!') else '!' + CMP_NEG[base]
+                if pred(dual, A, B) or pred(dual, B, A):
+                    return True
+        return False
     for si, t in b.terminators('switch'):
-        if si not in an.cfg.reach or t.get('ty') != 'bool':
+        if si not in an.cfg.reach:
+            continue
+        if t.get('ty') != 'bool':
+            # `match n { 0 => .., 1 => .., _ => .. }` on an integer: the edge to value v knows n == v, the otherwise edge
+            # knows n != v for every listed v
+            c = an.term_at(si, len(b.blocks[si]['st']), t['o'])
+            if c[0] == 'discr' or not t['targets']:
+                continue
+            ty = t.get('ty') or 'usize'
+            vals = []
+            for v, tgt in t['targets']:
+                try:
+                    vals.append((int(v), tgt))
+                except ValueError:
+                    vals = None
+                    break
+            if not vals:
+                continue
+            for v, tgt in vals:
+                known = [('Eq', v)] + [('Ne', w) for w, _ in vals if w != v]
+                if v > 0:
+                    known += [('Gt', 0), ('Ge', 1), ('Ne', 0)]
+                if any(try_pred(op, c, ('const', ty, str(k))) for op, k in known):
+                    out.append((si, tgt))
+            if any(try_pred('Ne', c, ('const', ty, str(v))) for v, tgt in vals):
+                # the edge carries all the inequalities; record it once per satisfied predicate
+                if t['otherwise'] not in an.cfg.dead:
+                    out.append((si, t['otherwise']))
             continue
         c = an.term_at(si, len(b.blocks[si]['st']), t['o'])
         neg = False
@@ -175,7 +215,7 @@ def bool_edges(ctx, b, pred):
             holds = truth != neg
             if c[0] == 'bin' and c[1] in CMP_NEG:
                 op = c[1] if holds else '!' + c[1]
-                if pred(op, c[2], c[3]):
+                if try_pred(op, c[2], c[3]):
                     out.append((si, tgt))
             else:
                 if pred('true' if holds else '!true', c, None):
@@ -242,6 +282,74 @@ def auto_discharge(ctx, b, h):
         if lb is not None and lb >= EPS2 * 0.999999:
             return 'tolerance bounded below by %g >= EPSILON^2' % lb
         return None
+    if kind == 'panic' and detail == 'assert_failed':
+        # assert_eq!(v.len(), n) right after v.resize(n, _): the only way to the failure is len(v) != n, and nothing but
+        # that resize mutates v
+        fs = shared.facts_at(ctx, b, bi)
+        for op, A, B, si in fs:
+            if B is None or op not in ('!Eq', 'Ne'):
+                continue
+            for x, y in ((A, B), (B, A)):
+                x1 = strip_all(x)
+                while x1[0] == 'deref':
+                    x1 = strip_all(x1[1])
+                if x1[0] == 'mem':
+                    x1 = shared.resolve_mem(an, x1)
+                y1 = strip_all(y)
+                while y1[0] == 'deref':
+                    y1 = strip_all(y1[1])
+                if y1[0] == 'mem':
+                    y1 = shared.resolve_mem(an, y1)
+                base = len_of(x1)
+                if base is None or base[0] not in ('mem', 'phi'):
+                    continue
+                vec_l = base[1]
+                rs = [(rb, rct) for rb, d, rct in calls_in(ctx, b) if d and d.endswith('Vec::<T, A>::resize') and strip_all(rct[2][0]) in (('mem', vec_l),)]
+                muts = []
+                for rb, d, rct in calls_in(ctx, b):
+                    tys = b.blocks[rb]['t'].get('arg_tys') or []
+                    for k3, a in enumerate(rct[2]):
+                        if strip_all(a) == ('mem', vec_l) and k3 < len(tys) and tys[k3].startswith('&mut'):
+                            muts.append(rb)
+                if len(rs) == 1 and muts == [rs[0][0]] and cfg.dominates(rs[0][0], bi) and poly(rs[0][1][2][1]) == poly(y1):
+                    return 'assert_eq!(v.len(), n) dominated by the only mutation of v, v.resize(n, _)'
+        return None
+    if kind == 'len-match':
+        # dst.copy_from_slice(src) inside the row callback that copy_surface hands to composite_surface: the two rows
+        # have equal length by R15.2, whatever the callback is called and whether it is a closure or a local fn
+        try:
+            import props.c15 as c15
+            cb, w, wan, call = c15.callback_of(ctx, 'copy_surface', 'R07.1')
+        except Exception:
+            cb = None
+        if cb is not None and cb[0] in ('closure', 'fn') and cb[1].q == b.q:
+            ct = an.call_term(bi)
+            ps, pd = (2, 3) if cb[0] == 'closure' else (1, 2)
+            if strip_all(ct[2][0]) in (('param', pd), ('deref', ('param', pd))) and strip_all(ct[2][1]) in (('param', ps), ('deref', ('param', ps))):
+                return 'row callback of composite_surface: source and destination rows have equal length (R15.2)'
+        return None
+    if kind == 'slice' and detail.endswith('[RangeFrom]'):
+        # base[k..] with a constant k needs len(base) >= k
+        rng = ex.get('range')
+        base = ex.get('base')
+        k = const_val(dict(rng[4]).get('start', ('unknown',))) if rng and rng[0] == 'agg' else None
+        if isinstance(k, int) and base is not None:
+            if k == 0:
+                return 'base[0..] is always in range'
+            def pred(op, A, B):
+                if B is None:
+                    return k == 1 and op == '!true' and is_call(A, 'is_empty') and same_base(b, strip_all(A[2][0]), base)
+                lb = len_of(A)
+                if lb is None or not same_base(b, lb, base):
+                    return False
+                c = const_val(B)
+                if c is None:
+                    return False
+                return (op == 'Gt' and c >= k - 1) or (op == 'Ge' and c >= k) or (op in ('Ne', '!Eq') and c == 0 and k == 1)
+            edges = bool_edges(ctx, b, pred)
+            if edges and cut_by_edges(cfg, bi, edges):
+                return 'slice from a constant under a length test of the same container'
+        return None
     if kind == 'index':
         idx = ex.get('index')
         base = ex.get('base')
@@ -263,9 +371,15 @@ def auto_discharge(ctx, b, h):
         for x in D.visited:
             if x[0] == 'agg' and x[2] and x[2].endswith('ops::Range'):
                 f = dict(x[4])
-                lb = len_of(f.get('end', ('unknown',)))
-                if lb is not None and same_base(b, lb, base) and strip_casts(idx)[0] == 'field' and is_call(strip_casts(idx)[1], 'Iterator::next'):
-                    return 'index is the loop variable of a range ending at len() of the same container'
+                def min_leaves(t):
+                    t = strip_all(t)
+                    if t[0] == 'call' and isinstance(t[1], str) and t[1].endswith('Ord::min') and len(t[2]) == 2:
+                        return min_leaves(t[2][0]) + min_leaves(t[2][1])
+                    return [t]
+                # the range ends at len(base), or at a min(..) one of whose operands is len(base)
+                ends = [len_of(x) for x in min_leaves(f.get('end', ('unknown',)))]
+                if any(lb is not None and same_base(b, lb, base) for lb in ends) and strip_casts(idx)[0] == 'field' and is_call(strip_casts(idx)[1], 'Iterator::next'):
+                    return 'index is the loop variable of a range ending at (a min with) len() of the same container'
         # constant index k under a guard len(base) > k' (k' >= k), !is_empty, len != 0
         if iv is not None:
             def pred(op, A, B):
@@ -297,7 +411,7 @@ TABLE = {
     ('<blitter::ImagePadAlphaShader as blitter::Shader>::shade_span', 'index', 'dest'): (2, 'range', 'dest_x < count <= dest.len(): run structure (R13.3), tmp sized by the surface width'),
     ('<blitter::ImagePadAlphaShader as blitter::Shader>::shade_span', 'index', 'self.image.data'): (2, 'else', 'row clamped to [0,height-1], columns 0 / width-1 (R13.3); data matches size (precondition)'),
     ('<blitter::ImagePadAlphaShader as blitter::Shader>::shade_span', 'slice', 'dest[Range]'): (1, 'range', 'len = min(count, width - x)'),
-    ('<blitter::ImagePadAlphaShader as blitter::Shader>::shade_span', 'slice', 'self.image.data[Range]'): (1, 'range', '0 <= x < width under the run guards (R13.3)'),
+    ('<blitter::ImagePadAlphaShader as blitter::Shader>::shade_span', 'slice', 'self.image.data[Range]'): (1, 'guard', 'the run inside the image is taken only when x < image.width (so width*y + x stays inside the clamped row; x >= 0 after the left-pad loop is a value-range argument, not decided)', 'pad_run'),
     ('<blitter::ImageRepeatAlphaShader as blitter::Shader>::shade_span', 'slice', 'dest[Range]'): (1, 'range', 'len = min(count, width - x)'),
     ('<blitter::ImageRepeatAlphaShader as blitter::Shader>::shade_span', 'slice', 'self.image.data[Range]'): (1, 'else', 'x, y reduced by rem_euclid of their own dimension (R13.3)'),
     ('<blitter::MaskBlitter as blitter::RasterBlitter>::blit_span', 'div', '4'): (1, 'auto', ''),
@@ -486,7 +600,22 @@ def g_unit_divide(ctx, b, hs):
     return True
 
 
-GUARDS = {'unit_divide': g_unit_divide, 'super_ends': g_super_ends, 'super_inner': g_super_inner, 'storage_never_none': g_storage_never_none,
+def g_pad_run(ctx, b, hs):
+    """image.data[width*y + x ..] in the Pad shader is reached only on the true edge of `x < self.image.width`"""
+    for h in hs:
+        fs = shared.facts_at(ctx, b, h[2])
+        ok = False
+        for op, a, b2, si in fs:
+            if b2 is None:
+                continue
+            if op == 'Lt' and strip_all(a)[0] in ('phi', 'param', 'rec') and strip_all(b2)[0] == 'field' and strip_all(b2)[2] == 'width':
+                ok = True
+        if not ok:
+            return False
+    return True
+
+
+GUARDS = {'unit_divide': g_unit_divide, 'pad_run': g_pad_run, 'super_ends': g_super_ends, 'super_inner': g_super_inner, 'storage_never_none': g_storage_never_none,
           'dash_array_nonempty': g_dash_array_nonempty, 'contains_point_flat': g_contains_point_flat,
           'add_edge_row': g_add_edge_row, 'add_edge_slope': g_add_edge_slope}
 
